@@ -22,7 +22,8 @@ POPULATE = (("memo", 0, "s", None), ("memo", 1, "X", None), ("memo", 2, "t", "ov
 # "+damaged": the data object of one memoized call (key 0) was lost before the store is opened read-only
 VARIANTS = ["arg", "config", "cluster-config", "arg+cache", "cluster-config+cache", "mem", "arg+damaged", "cluster-config+cache+damaged",
             "config-reused", "cluster-config-reused",
-            "arg+linkbroken", "arg+cache+linkbroken"]  # "+linkbroken": the memento link of one call (key 0) was left empty by an interrupted write  # "-reused": the configuration dict object had already been used to build a backend
+            "arg+linkbroken", "arg+cache+linkbroken", "arg+truncated",
+            "arg-over-config+rebuilt"]  # read_only=True given over a config that says "readonly": False, then dumped and rebuilt  # "+linkbroken": the memento link of one call (key 0) was left empty by an interrupted write  # "-reused": the configuration dict object had already been used to build a backend
 
 _roots = {}
 
@@ -67,6 +68,17 @@ class RORun:
         w = self.w
         self.damaged = None
         self.linkbroken = False
+        if "truncated" in variant:  # the memento document of key 0 was cut short (its link is intact)
+            sym, arg = KEYS[0]
+            h = storeh.refargs(sym, arg).arg_hash
+            docs = [os.path.join(dp, f) for dp, _, fs in os.walk(w.mpath) for f in fs
+                    if f == h + ".memento.json" and "fn#1" + os.sep in dp + os.sep]
+            if len(docs) != 1:
+                raise HarnessError("cannot find the memento document of key 0: %s" % docs)
+            data = open(docs[0], "rb").read()
+            open(docs[0], "wb").write(data[: len(data) // 2])
+            self.damaged = 0
+            self.linkbroken = True
         if "linkbroken" in variant:
             sym, arg = KEYS[0]
             h = storeh.refargs(sym, arg).arg_hash
@@ -86,7 +98,10 @@ class RORun:
             self.damaged = 0
         cache = 4096 / MB if "cache" in variant else None
         if kind == "fs":
-            if variant.startswith("arg"):
+            if variant.startswith("arg-over-config"):
+                be = FilesystemStorageBackend(config={"path": w.dpath, "metadata_path": w.mpath, "readonly": False}, read_only=True)
+                cluster = m.FunctionCluster(name="vfc", storage=be)
+            elif variant.startswith("arg"):
                 be = FilesystemStorageBackend(path=w.dpath, metadata_path=w.mpath, memory_cache_mb=cache, read_only=True)
                 cluster = m.FunctionCluster(name="vfc", storage=be)
             elif variant.startswith("config"):
@@ -118,9 +133,16 @@ class RORun:
             self.flag_lost = True
         else:
             self.flag_lost = False
+        set_env(cluster)
+        if "rebuilt" in variant:
+            # the environment is dumped and built again from its dump: the rebuilt store must be just as read-only
+            env2 = m.Environment(config=m.Environment.get().to_dict())
+            m.Environment.set(env2)
+            be = env2.get_cluster("vfc").storage
+            if not be.read_only:
+                self.flag_lost = True
         self.be = be
         w.be = be  # reads are checked by the shared StoreRun logic against the model
-        set_env(cluster)
         self.log = []
 
     def digest(self):
@@ -183,7 +205,9 @@ class RORun:
                     except Exception as e:
                         got = e
                     nb = len(audit.bodies())
-                    if memoized:
+                    if ki is not None and ki == self.damaged and "truncated" in self.variant:
+                        pass  # a cut-short memento document: whatever the call does (the library raises), nothing may be modified
+                    elif memoized:
                         want = None if modifier == "ignore" else None
                         if nb != 0:
                             bad = ("body-ran", "call of a memoized function ran its body %d times" % nb)
